@@ -225,6 +225,23 @@ claim(
     "DESIGN.md §2 C05",
 )
 
+claim(
+    "C16",
+    "def/use closure of $ref templates against components stores with guard-fact implication; two "
+    "independently derived CRUD tables (emitter arms vs gen_routes -> bottle -> template decorator lines); "
+    "placeholder / path-parameter pairing",
+    "Decides for cdd.compound.openapi.emit.openapi: every $ref is a constant template whose target is stored "
+    "under the same key template whenever the reference is written (requestBodies through the _request_body "
+    "flag, schemas unconditionally, ServerError in the initial literal) — i.e. the document is closed for "
+    "every model name and CRUD subset; the operations produced are exactly C->POST collection, R->GET item, "
+    "D->DELETE item, both in the OpenAPI emitter and in the generated routes; the item path's template "
+    "parameter is declared as a path parameter.",
+    "NOT decided: closure of openapi_bulk's output (component key = table name transformed by "
+    ".replace('_tbl','').title(), references come out of route docstrings at run time — a convention about "
+    "data); JSON serialisability of arbitrary models; routes fed back describe the same model.",
+    "DESIGN.md §2 C16",
+)
+
 
 def main():
     """write MANIFEST.json"""
